@@ -5,15 +5,6 @@ From Morph Require Import Base.UStr Gen.Tables Model.Terms Model.Data Model.Engi
      Proofs.DataP Proofs.UStrP Proofs.SplitP Proofs.EscP Proofs.TemplateP.
 Local Open Scope N_scope.
 
-Definition segs_of (k : mkind) (v : ustr) : list seg :=
-  match k with KRef => [SVar v] | KConst => map SLit v | _ => parse_template v end.
-Definition tpl0 (k : mkind) (v : ustr) : ustr := match k with KRef => 123 :: v ++ [125] | _ => v end.
-(* well-formed term map value: braces balanced, no backslash escapes, reference names non-empty *)
-Definition term_wf (k : mkind) (v : ustr) : bool := wf (segs_of k v) && ueqb (flat (segs_of k v)) (tpl0 k v).
-(* the literal characters of the template need no escaping inside an RDF literal *)
-Definition neutral (c : N) : bool := ueqb (esc_char c) [c].
-Fixpoint lits_neutral (segs : list seg) : bool :=
-  match segs with [] => true | SLit c :: r => neutral c && lits_neutral r | SVar _ :: r => lits_neutral r end.
 
 Section Term.
   Variables (cfg : ecfg) (k : mkind) (tt : ttype) (dt alias pos : ustr) (v : ustr).
